@@ -22,6 +22,7 @@ import (
 	"github.com/theparanoids/ysshra/agent/yubiagent"
 	"github.com/theparanoids/ysshra/internal/zzverif/ev"
 	"github.com/theparanoids/ysshra/internal/zzverif/fix"
+	"github.com/theparanoids/ysshra/internal/zzverif/introspect"
 	"github.com/theparanoids/ysshra/zzverifrt/vnet"
 )
 
@@ -629,6 +630,7 @@ type pivEnv struct {
 	outFile string
 	argFile string
 	stFile  string
+	errFile string
 }
 
 func newPivEnv() *pivEnv {
@@ -636,14 +638,15 @@ func newPivEnv() *pivEnv {
 	if err != nil {
 		panic(err)
 	}
-	p := &pivEnv{dir: d, outFile: filepath.Join(d, "out"), argFile: filepath.Join(d, "args"), stFile: filepath.Join(d, "status")}
-	script := "#!/bin/sh\necho \"$@\" > '" + p.argFile + "'\ncat '" + p.outFile + "'\nexit $(cat '" + p.stFile + "')\n"
+	p := &pivEnv{dir: d, outFile: filepath.Join(d, "out"), argFile: filepath.Join(d, "args"), stFile: filepath.Join(d, "status"), errFile: filepath.Join(d, "err")}
+	script := "#!/bin/sh\necho \"$@\" > '" + p.argFile + "'\ncat '" + p.outFile + "'\ncat '" + p.errFile + "' >&2\nexit $(cat '" + p.stFile + "')\n"
 	os.WriteFile(filepath.Join(d, "yubico-piv-tool"), []byte(script), 0o755)
 	os.Setenv("PATH", d+":"+os.Getenv("PATH"))
 	return p
 }
 
-func (p *pivEnv) set(out []byte, status int) {
+func (p *pivEnv) set(out []byte, status int, stderr ...string) {
+	os.WriteFile(p.errFile, []byte(strings.Join(stderr, "")), 0o644)
 	os.WriteFile(p.outFile, out, 0o644)
 	os.WriteFile(p.stFile, []byte(fmt.Sprint(status)), 0o644)
 	os.Remove(p.argFile)
@@ -686,6 +689,7 @@ type c13Case struct {
 	PivExpect string   `json:",omitempty"` // read/attest: cert0 | cert1 | error | either
 	CutOp     string   `json:",omitempty"` // transport failure: operation whose response is cut
 	CutClass  string   `json:",omitempty"`
+	PivStderr string   `json:",omitempty"` // what the fake PIV tool writes to its standard error
 	HoldOp    string   `json:",omitempty"` // the caller holds this operation's result while CutOp runs uncut
 }
 
@@ -773,7 +777,29 @@ func c13Piv(c *ev.Ctx, piv *pivEnv, k c13Case) {
 		return
 	}
 	defer cl.Close()
-	piv.set([]byte(k.PivOutput), k.PivStatus)
+	piv.set([]byte(k.PivOutput), k.PivStatus, k.PivStderr)
+	defer func() {
+		// whatever the tool did, the server object must be usable afterwards: no lock left held, and a following slot
+		// operation on the same connection (tool now well-behaved) completes
+		if held := introspect.LocksHeld(w.srv); len(held) > 0 {
+			c.Violation("C13:lock-left-held:"+k.PivOp, fmt.Sprintf("%s returned with %v still held (tool status %d, %d bytes on stderr): every later slot operation would block for ever", k.PivOp, held, k.PivStatus, len(k.PivStderr)), k)
+			return
+		}
+		if k.Remote {
+			return
+		}
+		piv.set([]byte("Slot 9a:\n"), 0)
+		done := make(chan error, 1)
+		go func() { _, e := cl.ListSlots(); done <- e }()
+		select {
+		case e := <-done:
+			if e != nil {
+				c.Violation("C13:slot-operation-fails-after-earlier-one:"+k.PivOp, fmt.Sprintf("a well-behaved ListSlots right after %s (tool status %d) failed: %v", k.PivOp, k.PivStatus, e), k)
+			}
+		case <-time.After(60 * time.Second):
+			c.Violation("C13:operation-hangs:ListSlots-after-"+k.PivOp, fmt.Sprintf("ListSlots after %s (tool status %d, %d bytes on stderr) did not return within 60 s", k.PivOp, k.PivStatus, len(k.PivStderr)), k)
+		}
+	}()
 	var slots []string
 	var cert *x509.Certificate
 	var oerr error
@@ -864,7 +890,7 @@ func errClassY(err error) string {
 }
 
 func checkC13(c *ev.Ctx) {
-	c.Rule("yubiagent.NewClient through the dial seam; the peer runs the real ServeAgent synchronously per request over (i) a recording YubiAgent with scripted results and (ii) the real server with a fake yubico-piv-tool. Every operation alone: List (0..3 keys, comments '', ascii, UTF-8, 300 bytes), SignWithFlags (3 key types x data {0,1,64,65536} x flags {0,2,4,6}; certificate keys of 3 types x {ordinary, 7 KiB} certificate x data {0,65535,65536}), Add (3 key types x cert x lifetime {0,1,2^32-1} x confirm), Remove, RemoveAll, Lock/Unlock (5 passphrases), Signers, AddHardCert (client and legacy encoding, 4 comments, certificates and plain keys of 3 key types), Wait (6 codes), slot operations (slot names, 2 certificate sizes), raw Forward (3 bodies x 4 replies up to 70 KB), Extension, smart-card requests, scripted failures with 5 error texts; transport failures: the response of each of 16 operations cut after {0, 2, 4 bytes, half the body, all but the last byte} and the stream ended (the call must return an error); held results (6 value-returning operations x 16 following operations: the kept bytes must not change); every ordered pair over a 30-operation generating set; PIV tool outputs (well-formed status, 'Slot' alone, 'Slot 9' (6 chars), 'Slot 9a' (7), 'Slot9a:', CRLF, empty, 1 MiB, exit status 1, PEM/garbage for read/attest) in local and remote mode. non-trivial = operation sequence whose arguments and results were compared; distinct by sequence")
+	c.Rule("yubiagent.NewClient through the dial seam; the peer runs the real ServeAgent synchronously per request over (i) a recording YubiAgent with scripted results and (ii) the real server with a fake yubico-piv-tool. Every operation alone: List (0..3 keys, comments '', ascii, UTF-8, 300 bytes), SignWithFlags (3 key types x data {0,1,64,65536} x flags {0,2,4,6}; certificate keys of 3 types x {ordinary, 7 KiB} certificate x data {0,65535,65536}), Add (3 key types x cert x lifetime {0,1,2^32-1} x confirm), Remove, RemoveAll, Lock/Unlock (5 passphrases), Signers, AddHardCert (client and legacy encoding, 4 comments, certificates and plain keys of 3 key types), Wait (6 codes), slot operations (slot names, 2 certificate sizes), raw Forward (3 bodies x 4 replies up to 70 KB), Extension, smart-card requests, scripted failures with 5 error texts; transport failures: the response of each of 16 operations cut after {0, 2, 4 bytes, half the body, all but the last byte} and the stream ended (the call must return an error); held results (6 value-returning operations x 16 following operations: the kept bytes must not change); every ordered pair over a 30-operation generating set; PIV tool outputs (well-formed status, 'Slot' alone, 'Slot 9' (6 chars), 'Slot 9a' (7), 'Slot9a:', CRLF, empty, 1 MiB, exit status {1,2,255} with and without text on standard error (up to 70 KB), PEM/garbage for read/attest) in local and remote mode; after every tool run the server holds no lock and a following slot operation completes. non-trivial = operation sequence whose arguments and results were compared; distinct by sequence")
 	c.Assume("error texts exactly 'SUCCESS' / '' and extension payloads that are empty or start with byte 5/28 are in-band protocol artefacts, excluded from the alphabet", "private keys are compared through their public keys")
 	ops := map[string]c13Op{}
 	list := c13StubOps()
@@ -939,6 +965,14 @@ func checkC13(c *ev.Ctx) {
 			c13Piv(c, piv, c13Case{PivOp: "ListSlots", PivOutput: o, Remote: remote})
 		}
 		c13Piv(c, piv, c13Case{PivOp: "ListSlots", PivOutput: o, PivStatus: 1})
+		c13Piv(c, piv, c13Case{PivOp: "ListSlots", PivOutput: o, PivStatus: 1, PivStderr: "Failed to connect to yubikey.\n"})
+	}
+	for _, op := range []string{"ListSlots", "ReadSlot", "AttestSlot"} {
+		for _, st := range []int{0, 1, 2, 255} {
+			for _, se := range []string{"", "x", "Failed to connect to yubikey.\nTry re-inserting it.\n", strings.Repeat("e", 70000)} {
+				c13Piv(c, piv, c13Case{PivOp: op, PivOutput: wellFormed, PivStatus: st, PivStderr: se, PivExpect: "error"})
+			}
+		}
 	}
 	c.Sample(c13Case{PivOp: "ListSlots", PivOutput: "Slot 9"})
 	certs := c13Certs()
